@@ -2,6 +2,7 @@ package main
 
 import (
 	"fmt"
+	"sync"
 	"go/types"
 	"strings"
 
@@ -51,10 +52,16 @@ func storeClasses(key string, t types.Type, out map[string]bool) {
 		return
 	}
 	for _, lf := range leaves {
-		cls, _ := leafClass(key, lf)
+		cls, isM := leafClass(key, lf)
+		if lf.Kind == "bool" && !isM {
+			boolClasses.Store(cls, true)
+		}
 		out[cls] = true
 	}
 }
+
+// boolClasses: heap classes whose cells are booleans (sort (Array Int Bool)).
+var boolClasses sync.Map
 
 // addrRoot traces an address expression to its origin.
 func addrRoot(v ssa.Value) (root ssa.Value, key string) {
@@ -185,6 +192,12 @@ func (f *Frame) callMods(cc *ssa.CallCommon, ms *modSet, depth int) {
 		}
 		ms.all = true
 	default:
+		if nt, ok := cc.Value.Type().(*types.Named); ok {
+			if ftc := vc.CS.Funcs["functype:"+pkgShort(nt.Obj().Pkg())+"."+nt.Obj().Name()]; ftc != nil && ftc.HasAssigns {
+				f.assignsToClasses(ftc, nil, ms)
+				return
+			}
+		}
 		ms.all = true
 	}
 }
@@ -217,10 +230,16 @@ func (vc *VC) assignEntryClasses(a string, c *Contract, ms *modSet) {
 			ms.all = true
 		}
 	default:
-		// "T.f": field of a struct type of the contract's package
+		// "T.f": field of a struct type of the contract's package; "pkg.T.f": of another package
 		parts := strings.SplitN(a, ".", 2)
+		pkgName := c.Pkg
+		if strings.Count(a, ".") == 2 {
+			three := strings.SplitN(a, ".", 3)
+			pkgName = three[0]
+			parts = three[1:]
+		}
 		if len(parts) == 2 {
-			if sp := vc.P.ByPkg[c.Pkg]; sp != nil {
+			if sp := vc.P.ByPkg[pkgName]; sp != nil {
 				if tn, ok := sp.Members[parts[0]].(*ssa.Type); ok {
 					if s, ok := tn.Type().Underlying().(*types.Struct); ok {
 						for i := 0; i < s.NumFields(); i++ {
@@ -244,13 +263,17 @@ func (vc *VC) assignEntryClasses(a string, c *Contract, ms *modSet) {
 	}
 }
 
-func (f *Frame) applyMods(st *State, ms *modSet) {
+func (f *Frame) applyMods(st *State, ms *modSet) { f.applyModsTagged(st, ms, "hv_") }
+
+// applyModsTagged: tag "cv_" marks values written by a callee under contract (as opposed to
+// loop havoc), which poolfree() accepts as not derived from pooled contents.
+func (f *Frame) applyModsTagged(st *State, ms *modSet, tag string) {
 	vc := f.vc
 	if ms.all || ms.keys["*"] {
 		vc.havocAll(st, "loop or call with unknown effects in "+f.fn.Name())
 	} else {
 		for k := range ms.keys {
-			vc.havocKey(st, k)
+			st.heap[k] = vc.B.Fresh(tag+shortKey(k), vc.heapSort(k))
 		}
 	}
 	for g := range ms.globs {
@@ -354,6 +377,7 @@ func (f *Frame) enterCutLoop(li *loopInfo, live []inEdge) (*State, error) {
 	// 3. assume the invariants
 	for _, cl := range invs {
 		ctx := f.newCtx(st, f.entry)
+		ctx.assumeMode = true
 		ctx.at = b
 		g, err := ctx.evalBoolSafe(cl.E)
 		if err != nil {
